@@ -9,8 +9,10 @@
   `UVerif.ConvFixpntSpec.fromInt / fromRat` (lean/UVerif/Spec/ConvFixpnt.lean): the exact source value scaled by
   2^rbits, rounded to the nearest integer with ties to even, then wrapped (Modulo) or clamped (Saturate).
 
-  Where the pinned code deviates from the property the full statement is kept as a `def … : Prop`, its negation is
-  proved at a concrete witness, and the `_partial` theorem carries the guard as an explicit decidable hypothesis.
+  Repair wave: the Saturate range tests of the integer branches, the 64-bit loop bound of the unsigned branch, the missing
+  sign extension above bit 63 and the clamp of values that round up beyond maxpos were repaired in the library (`fix:` commits,
+  see NOTES_conv.md); the former `…_counterexample` theorems are now positive statements at the same witnesses (`…_witness`) and
+  the former `…_partial` theorems are stated without their guards.
 -/
 import UVerifProofs.Lemmas.ConvFixpntFrom
 
@@ -47,113 +49,86 @@ theorem C03_fixpnt_from_narrow_eq_wide (n r sz1 sz2 : Nat) (v : Int) (hn : 0 < n
 example : ConvFixpnt.fromSigned 12 4 false 8 (-100) = 0x9c0 ∧ ConvFixpnt.fromSigned 12 4 false 64 (-100) = 0x9c0 := by decide
 example : (0 < 8) ∧ (8 ≤ 64) ∧ (-((2 ^ (8 - 1) : Nat) : Int) ≤ -100) ∧ ((-100 : Int) < ((2 ^ (8 - 1) : Nat) : Int)) := by decide
 
-/-- the same for unsigned sources with an integer part of at most 64 bits (the result does not mention `sz` at all) -/
-theorem C03_fixpnt_from_narrow_eq_wide_unsigned (n r sz1 sz2 v : Nat) (hr : r ≤ n) (h64 : n - r ≤ 64) :
+/-- the same for unsigned sources held in a native type (v < 2^64): the result does not depend on the type's width -/
+theorem C03_fixpnt_from_narrow_eq_wide_unsigned (n r sz1 sz2 v : Nat) (hr : r ≤ n) (hv : v < 2 ^ 64) :
     ConvFixpnt.fromUnsigned n r false sz1 v = ConvFixpnt.fromUnsigned n r false sz2 v := by
-  rw [fromUnsigned_modulo n r sz1 v hr h64, fromUnsigned_modulo n r sz2 v hr h64]
+  rw [fromUnsigned_modulo_full n r sz1 v hr hv, fromUnsigned_modulo_full n r sz2 v hr hv]
 
 example : ConvFixpnt.fromUnsigned 12 4 false 8 200 = 0xc80 ∧ ConvFixpnt.fromUnsigned 12 4 false 64 200 = 0xc80 := by decide
 
 /-! ### 2. unsigned integer sources, Modulo -/
 
-/-- full statement for unsigned sources (false of the pinned code when nbits − rbits > 64) -/
-def C03_fixpnt_from_unsigned_modulo_full : Prop :=
-  ∀ (n r sz v : Nat), 0 < n → r ≤ n → 0 < sz → v < 2 ^ sz →
-    ConvFixpnt.fromUnsigned n r false sz v = ConvFixpntSpec.fromInt n r false (v : Int)
-
-/-- an unsigned integer converts to `v · 2^rbits` modulo `2^nbits` whenever the integer part of the target has at most
-    64 bits (the loop bound `upperbound = nbits`) -/
-theorem C03_fixpnt_from_unsigned_modulo (n r sz v : Nat) (_hn : 0 < n) (hr : r ≤ n) (_hsz : 0 < sz) (_hv : v < 2 ^ sz)
-    (h64 : n - r ≤ 64) :
+/-- an unsigned integer held in a native type of `sz ≤ 64` bits converts to `v · 2^rbits` modulo `2^nbits`, for EVERY
+    configuration: when the integer part of the target is wider than 64 bits all 64 source bits are copied
+    (loop bound `rbits + 64`) -/
+theorem C03_fixpnt_from_unsigned_modulo (n r sz v : Nat) (_hn : 0 < n) (hr : r ≤ n) (_hsz : 0 < sz) (hsz64 : sz ≤ 64)
+    (hv : v < 2 ^ sz) :
     ConvFixpnt.fromUnsigned n r false sz v = ConvFixpntSpec.fromInt n r false (v : Int) :=
-  fromUnsigned_modulo n r sz v hr h64
+  fromUnsigned_modulo_full n r sz v hr (Nat.lt_of_lt_of_le hv (Nat.pow_le_pow_right (by omega) hsz64))
 
 -- fixpnt<12,4,Modulo>(unsigned 300): 4800 mod 4096 = 0x2c0
 example : ConvFixpnt.fromUnsigned 12 4 false 32 300 = 0x2c0 ∧ ConvFixpntSpec.fromInt 12 4 false 300 = 0x2c0 := by decide
 
-/-- nbits − rbits > 64: `upperbound = 64` is used as a bit index of the TARGET, only 64 − rbits source bits are copied.
-    fixpnt<72,4,Modulo>(uint64_t 2^64 − 1) loses the top four bits of the source. -/
-theorem C03_fixpnt_from_unsigned_wide_counterexample :
-    ¬ (ConvFixpnt.fromUnsigned 72 4 false 64 (2 ^ 64 - 1) = ConvFixpntSpec.fromInt 72 4 false ((2 ^ 64 - 1 : Nat) : Int)) := by
+/-- the witness of the former defect `fixpnt.from_uint.more_than_64_integer_bits`:
+    fixpnt<72,4,Modulo>(uint64_t 2^64 − 1) = 0x0ffffffffffffffff0, all 64 source bits -/
+theorem C03_fixpnt_from_unsigned_wide_witness :
+    ConvFixpnt.fromUnsigned 72 4 false 64 (2 ^ 64 - 1) = 0x0ffffffffffffffff0 ∧
+    ConvFixpntSpec.fromInt 72 4 false ((2 ^ 64 - 1 : Nat) : Int) = 0x0ffffffffffffffff0 := by
   decide
-
-theorem C03_fixpnt_from_unsigned_modulo_counterexample : ¬ C03_fixpnt_from_unsigned_modulo_full := by
-  intro h
-  exact C03_fixpnt_from_unsigned_wide_counterexample (h 72 4 64 (2 ^ 64 - 1) (by decide) (by decide) (by decide) (by decide))
 
 /-! ### 3. integer sources, Saturate -/
 
-/-- full statement for signed sources in Saturate mode (false of the pinned code) -/
-def C03_fixpnt_from_signed_saturate_full : Prop :=
-  ∀ (n r sz : Nat) (v : Int), 0 < n → r ≤ n → 0 < sz →
-    -((2 ^ (sz - 1) : Nat) : Int) ≤ v → v < ((2 ^ (sz - 1) : Nat) : Int) →
-    ConvFixpnt.fromSigned n r true sz v = ConvFixpntSpec.fromInt n r true v
-
-/-- Saturate, signed source: the clamp of `v · 2^rbits` to [maxneg, maxpos], PROVIDED the integer part of maxpos fits
-    the source type (nbits − rbits ≤ sz, and ≤ 64 for the `to_signed` loop bound) and `v` is not exactly the integer
-    part of maxpos (unless rbits = 0, where that IS maxpos).  nbits = rbits is included (both thresholds are 0).
-    Missing for the full statement: the range test is `v >= static_cast<Arith>(maxpos)` — against the integer part
-    only, read into the source type — see the two counterexamples below. -/
-theorem C03_fixpnt_from_signed_saturate_partial (n r sz : Nat) (v : Int) (hn : 0 < n) (hr : r ≤ n) (hsz : 0 < sz)
-    (h1 : -((2 ^ (sz - 1) : Nat) : Int) ≤ v) (h2 : v < ((2 ^ (sz - 1) : Nat) : Int))
-    (h64 : n - r ≤ 64) (hfit : n - r ≤ sz)
-    (hg : r = 0 ∨ v = 0 ∨ v ≠ ((2 ^ (n - r - 1) : Nat) : Int) - 1) :
+/-- Saturate, signed source held in a native type of `sz ≤ 64` bits: the clamp of `v · 2^rbits` to [maxneg, maxpos] for EVERY
+    configuration and EVERY value of the type.  The range test `v > int(maxpos)`, `v <= int(maxneg)` (integer parts) is only
+    compiled when the integer part of the target fits the source type; otherwise every value of the type is in range. -/
+theorem C03_fixpnt_from_signed_saturate (n r sz : Nat) (v : Int) (hn : 0 < n) (hr : r ≤ n) (hsz : 0 < sz) (hsz64 : sz ≤ 64)
+    (h1 : -((2 ^ (sz - 1) : Nat) : Int) ≤ v) (h2 : v < ((2 ^ (sz - 1) : Nat) : Int)) :
     ConvFixpnt.fromSigned n r true sz v = ConvFixpntSpec.fromInt n r true v :=
-  fromSigned_saturate n r sz v hn hr hsz h1 h2 h64 hfit hg
+  fromSigned_saturate n r sz v hn hr hsz hsz64 h1 h2
 
--- fixpnt<8,4,Saturate>: int 6 is exact, int 8 and int −9 clamp; the guards hold for (8,4,int32,6)
+-- fixpnt<8,4,Saturate>: int 6 is exact, int 8 and int −9 clamp
 example : ConvFixpnt.fromSigned 8 4 true 32 6 = 0x60 ∧ ConvFixpnt.fromSigned 8 4 true 32 8 = 0x7f ∧
     ConvFixpnt.fromSigned 8 4 true 32 (-9) = 0x80 := by decide
-example : (8 - 4 ≤ 64) ∧ (8 - 4 ≤ 32) ∧ ((4 : Nat) = 0 ∨ (6 : Int) = 0 ∨ (6 : Int) ≠ ((2 ^ (8 - 4 - 1) : Nat) : Int) - 1) := by decide
+example : (0 < 8) ∧ (4 ≤ 8) ∧ (0 < 32) ∧ (32 ≤ 64) ∧ (-((2 ^ (32 - 1) : Nat) : Int) ≤ 6) ∧ ((6 : Int) < ((2 ^ (32 - 1) : Nat) : Int)) := by
+  decide
 
-/-- fixpnt<8,4,Saturate>(int 7): 7 = int(maxpos) passes `v >= int(maxpos)` and returns maxpos 0x7f = 7.9375
-    although 7 = 0x70 is representable -/
-theorem C03_fixpnt_from_signed_saturate_floor_counterexample :
-    ConvFixpnt.fromSigned 8 4 true 32 7 = 0x7f ∧ ConvFixpntSpec.fromInt 8 4 true 7 = 0x70 := by decide
+/-- the witness of the former defect `fixpnt.from_int.saturate.floor_maxpos_returns_maxpos`:
+    fixpnt<8,4,Saturate>(int 7) = 0x70 (7 = the integer part of maxpos is representable and is returned) -/
+theorem C03_fixpnt_from_signed_saturate_floor_witness :
+    ConvFixpnt.fromSigned 8 4 true 32 7 = 0x70 ∧ ConvFixpntSpec.fromInt 8 4 true 7 = 0x70 := by decide
 
-/-- fixpnt<40,4,Saturate>(int 5): the 36-bit integer part of maxpos does not fit `int`, `int(maxpos)` wraps to −1 and
-    every non-negative int saturates to maxpos -/
-theorem C03_fixpnt_from_signed_saturate_wrapped_counterexample :
-    ConvFixpnt.fromSigned 40 4 true 32 5 = ConvFixpnt.maxposP 40 ∧ ConvFixpntSpec.fromInt 40 4 true 5 = 0x50 := by decide
+/-- the witness of the former defect `fixpnt.from_int.saturate.threshold_exceeds_source_type`:
+    fixpnt<40,4,Saturate>(int 5) = 0x50 (the 36-bit integer part holds every int: no range test) -/
+theorem C03_fixpnt_from_signed_saturate_wide_witness :
+    ConvFixpnt.fromSigned 40 4 true 32 5 = 0x50 ∧ ConvFixpntSpec.fromInt 40 4 true 5 = 0x50 := by decide
 
-theorem C03_fixpnt_from_signed_saturate_counterexample : ¬ C03_fixpnt_from_signed_saturate_full := by
-  intro h
-  have h7 := h 8 4 32 7 (by decide) (by decide) (by decide) (by decide) (by decide)
-  rw [C03_fixpnt_from_signed_saturate_floor_counterexample.1, C03_fixpnt_from_signed_saturate_floor_counterexample.2] at h7
-  exact absurd h7 (by decide)
+/-- a narrower signed type gives the same result in Saturate mode as well -/
+theorem C03_fixpnt_from_narrow_eq_wide_saturate (n r sz1 sz2 : Nat) (v : Int) (hn : 0 < n) (hr : r ≤ n) (hsz : 0 < sz1)
+    (hle : sz1 ≤ sz2) (hsz64 : sz2 ≤ 64) (h1 : -((2 ^ (sz1 - 1) : Nat) : Int) ≤ v) (h2 : v < ((2 ^ (sz1 - 1) : Nat) : Int)) :
+    ConvFixpnt.fromSigned n r true sz1 v = ConvFixpnt.fromSigned n r true sz2 v := by
+  have hp : ((2 ^ (sz1 - 1) : Nat) : Int) ≤ ((2 ^ (sz2 - 1) : Nat) : Int) := by
+    exact_mod_cast Nat.pow_le_pow_right (by omega) (by omega : sz1 - 1 ≤ sz2 - 1)
+  rw [C03_fixpnt_from_signed_saturate n r sz1 v hn hr hsz (by omega) h1 h2,
+    C03_fixpnt_from_signed_saturate n r sz2 v hn hr (by omega) hsz64 (by omega) (by omega)]
 
-/-- full statement for unsigned sources in Saturate mode (false of the pinned code) -/
-def C03_fixpnt_from_unsigned_saturate_full : Prop :=
-  ∀ (n r sz v : Nat), 0 < n → r ≤ n → 0 < sz → v < 2 ^ sz →
-    ConvFixpnt.fromUnsigned n r true sz v = ConvFixpntSpec.fromInt n r true (v : Int)
+example : ConvFixpnt.fromSigned 40 4 true 16 (-100) = ConvFixpnt.fromSigned 40 4 true 64 (-100) := by decide
 
-/-- fixpnt<8,4,Saturate>(unsigned 1) = maxneg 0x80 (−8.0), not 0x10: `static_cast<unsigned>(maxneg)` is the raw
-    pattern sign-extended to a huge unsigned number, so every source below the raw maxpos pattern is "≤ maxneg" -/
-theorem C03_fixpnt_from_unsigned_saturate_counterexample : ¬ C03_fixpnt_from_unsigned_saturate_full := by
-  intro h
-  have h1 := h 8 4 32 1 (by decide) (by decide) (by decide) (by decide)
-  have hm : ConvFixpnt.fromUnsigned 8 4 true 32 1 = 0x80 := by decide
-  have hs : ConvFixpntSpec.fromInt 8 4 true ((1 : Nat) : Int) = 0x10 := by decide
-  rw [hm, hs] at h1
-  exact absurd h1 (by decide)
-
-/-- the only region where the unsigned Saturate range test is right: a source at or above the RAW maxpos pattern
-    2^(nbits−1) − 1 (nbits ≤ 64, the pattern fits the source type) saturates to maxpos, which is also the clamp of
-    `v · 2^rbits`.  Every other non-zero source returns maxpos or maxneg as well (see the counterexamples):
-    missing for the full statement is a range test against the VALUE of maxpos and no test against maxneg at all. -/
-theorem C03_fixpnt_from_unsigned_saturate_partial (n r sz v : Nat) (hn : 0 < n) (hn64 : n ≤ 64) (_hr : r ≤ n)
-    (_hsz : 0 < sz) (_hv : v < 2 ^ sz) (hfit : n - 1 ≤ sz) (htop : 2 ^ (n - 1) - 1 ≤ v) :
+/-- Saturate, unsigned source held in a native type of `sz ≤ 64` bits: the clamp of `v · 2^rbits` for EVERY configuration and
+    value (compared with the integer part of maxpos, `(unsigned long long)(long long)(maxpos)`; no lower test) -/
+theorem C03_fixpnt_from_unsigned_saturate (n r sz v : Nat) (hn : 0 < n) (hr : r ≤ n) (_hsz : 0 < sz) (hsz64 : sz ≤ 64)
+    (hv : v < 2 ^ sz) :
     ConvFixpnt.fromUnsigned n r true sz v = ConvFixpntSpec.fromInt n r true (v : Int) :=
-  fromUnsigned_saturate_top n r sz v hn hn64 hfit htop
+  fromUnsigned_saturate n r sz v hn hr (Nat.lt_of_lt_of_le hv (Nat.pow_le_pow_right (by omega) hsz64))
 
--- fixpnt<8,4,Saturate>(unsigned 200) = maxpos
-example : ConvFixpnt.fromUnsigned 8 4 true 32 200 = 0x7f ∧ ConvFixpntSpec.fromInt 8 4 true 200 = 0x7f := by decide
-example : (0 < 8) ∧ (8 ≤ 64) ∧ (4 ≤ 8) ∧ (200 < 2 ^ 32) ∧ (8 - 1 ≤ 32) ∧ (2 ^ (8 - 1) - 1 ≤ 200) := by decide
+-- fixpnt<8,4,Saturate>: unsigned 200 and 8 clamp to maxpos, 7 is exact
+example : ConvFixpnt.fromUnsigned 8 4 true 32 200 = 0x7f ∧ ConvFixpnt.fromUnsigned 8 4 true 32 8 = 0x7f ∧
+    ConvFixpnt.fromUnsigned 8 4 true 32 7 = 0x70 := by decide
 
-/-- a source type narrower than the raw maxpos pattern: fixpnt<16,0,Saturate>(uint8_t 255) = maxpos 32767, because
-    `static_cast<uint8_t>(maxpos)` = 255 -/
-theorem C03_fixpnt_from_unsigned_saturate_narrow_counterexample :
-    ConvFixpnt.fromUnsigned 16 0 true 8 255 = 0x7fff ∧ ConvFixpntSpec.fromInt 16 0 true 255 = 0xff := by decide
+/-- the witnesses of the former defect `fixpnt.from_uint.saturate.raw_pattern_thresholds`:
+    fixpnt<8,4,Saturate>(unsigned 1) = 0x10 (was maxneg), fixpnt<16,0,Saturate>(uint8_t 255) = 0xff (was maxpos) -/
+theorem C03_fixpnt_from_unsigned_saturate_witness :
+    ConvFixpnt.fromUnsigned 8 4 true 32 1 = 0x10 ∧ ConvFixpntSpec.fromInt 8 4 true ((1 : Nat) : Int) = 0x10 ∧
+    ConvFixpnt.fromUnsigned 16 0 true 8 255 = 0xff ∧ ConvFixpntSpec.fromInt 16 0 true 255 = 0xff := by decide
 
 /-! ### 4. float / double sources -/
 
@@ -177,101 +152,84 @@ theorem C03_fixpnt_ieee_value_eq_valOf (ew fb bits : Nat) (hexp : 0 < (bits >>> 
 example : C03_fixpnt_ieee_value 11 52 0xc00c000000000000 = -7/2 := by decide +kernel
 
 /-- a NORMAL finite float / double (any format with fb + 1 < 64 fraction+hidden bits: binary32 = (8,23),
-    binary64 = (11,52)) converts, in Modulo mode and for nbits ≤ 64, to the multiple of 2^−rbits nearest to its exact
+    binary64 = (11,52)) converts, in Modulo mode and for EVERY nbits, to the multiple of 2^−rbits nearest to its exact
     value, ties to the even raw integer, wrapped modulo 2^nbits: all three branches of the code (result 0 when more
-    than fb+1 bits would be shifted out, guard/round/sticky rounding, exact left shift with bit projection).
-    (Subnormal sources are excluded: the code's `rawExponent == 0` fraction has no hidden bit and the biased exponent
-    is still `0 − bias`, cf. the full statement below.) -/
-theorem C03_fixpnt_from_ieee_modulo (n r ew fb bits : Nat) (hn : n ≤ 64) (_hr : r ≤ n) (hfb : fb + 1 < 64)
+    than fb+1 bits would be shifted out, guard/round/sticky rounding, exact left shift with bit projection); a negative
+    source is two's-complemented in all nbits.
+    (Subnormal sources are excluded here: the code's `rawExponent == 0` fraction has no hidden bit and the biased exponent
+    is still `0 − bias`, cf. `C03_fixpnt_from_ieee_modulo_finite`.) -/
+theorem C03_fixpnt_from_ieee_modulo (n r ew fb bits : Nat) (_hr : r ≤ n) (hfb : fb + 1 < 64)
     (hnormal : 0 < (bits >>> fb) % 2 ^ ew) (_hfinite : (bits >>> fb) % 2 ^ ew < 2 ^ ew - 1) :
     ConvFixpnt.fromIeee n r false ew fb bits = ConvFixpntSpec.fromRat n r false (SpecF64.valOf (fb + 1) ew bits) :=
-  fromIeee_modulo n r ew fb bits hn hfb hnormal
+  fromIeee_modulo n r ew fb bits hfb hnormal
 
 /-- the same with the value written out -/
-theorem C03_fixpnt_from_ieee_modulo_explicit (n r ew fb bits : Nat) (hn : n ≤ 64) (hr : r ≤ n) (hfb : fb + 1 < 64)
+theorem C03_fixpnt_from_ieee_modulo_explicit (n r ew fb bits : Nat) (hr : r ≤ n) (hfb : fb + 1 < 64)
     (hnormal : 0 < (bits >>> fb) % 2 ^ ew) (hfinite : (bits >>> fb) % 2 ^ ew < 2 ^ ew - 1) :
     ConvFixpnt.fromIeee n r false ew fb bits = ConvFixpntSpec.fromRat n r false (C03_fixpnt_ieee_value ew fb bits) := by
   rw [C03_fixpnt_ieee_value_eq_valOf ew fb bits hnormal]
-  exact C03_fixpnt_from_ieee_modulo n r ew fb bits hn hr hfb hnormal hfinite
+  exact C03_fixpnt_from_ieee_modulo n r ew fb bits hr hfb hnormal hfinite
 
 -- fixpnt<16,8,Modulo>(double −3.5) = 0xfc80; (float 0.001953125 = 2^-9) is a tie and rounds to even 0;
 -- (double 300.0) wraps: 76800 mod 65536 = 0x2c00.  0xc00c… is normal and finite.
 example : ConvFixpnt.fromIeee 16 8 false 11 52 0xc00c000000000000 = 0xfc80 := by decide +kernel
 example : ConvFixpnt.fromIeee 16 8 false 8 23 0x3b000000 = 0 := by decide +kernel
 example : ConvFixpnt.fromIeee 16 8 false 11 52 0x4072c00000000000 = 0x2c00 := by decide +kernel
-example : (16 ≤ 64) ∧ (52 + 1 < 64) ∧ (0 < (0xc00c000000000000 >>> 52) % 2 ^ 11) ∧ ((0xc00c000000000000 >>> 52) % 2 ^ 11 < 2 ^ 11 - 1) := by
+example : (8 ≤ 16) ∧ (52 + 1 < 64) ∧ (0 < (0xc00c000000000000 >>> 52) % 2 ^ 11) ∧ ((0xc00c000000000000 >>> 52) % 2 ^ 11 < 2 ^ 11 - 1) := by
   decide
 
-/-- nbits > 64, negative source: the result is built in a uint64_t and stored with `setbits(uint64_t)`, which does
-    not sign-extend above bit 63.  fixpnt<72,4,Modulo>(double −1.0) = 0x00fffffffffffffff0, not 0xfffffffffffffffff0. -/
-theorem C03_fixpnt_from_ieee_wide_negative_counterexample :
-    ¬ (ConvFixpnt.fromIeee 72 4 false 11 52 0xbff0000000000000
-        = ConvFixpntSpec.fromRat 72 4 false (SpecF64.valOf 53 11 0xbff0000000000000)) := by
+/-- the witness of the former defect `fixpnt.from_ieee.negative_nbits_gt_64`:
+    fixpnt<72,4,Modulo>(double −1.0) = 0xfffffffffffffffff0 (sign-extended above bit 63) -/
+theorem C03_fixpnt_from_ieee_wide_negative_witness :
+    ConvFixpnt.fromIeee 72 4 false 11 52 0xbff0000000000000 = 0xfffffffffffffffff0 ∧
+    ConvFixpntSpec.fromRat 72 4 false (SpecF64.valOf 53 11 0xbff0000000000000) = 0xfffffffffffffffff0 := by
   decide +kernel
 
-/-- the statement for every finite source and every width (false of the pinned code for nbits > 64, see above) -/
-def C03_fixpnt_from_ieee_modulo_full : Prop :=
-  ∀ (n r ew fb bits : Nat), 0 < n → r ≤ n → 2 ≤ ew → fb + 1 < 64 → (bits >>> fb) % 2 ^ ew < 2 ^ ew - 1 →
-    ConvFixpnt.fromIeee n r false ew fb bits = ConvFixpntSpec.fromRat n r false (SpecF64.valOf (fb + 1) ew bits)
-
-theorem C03_fixpnt_from_ieee_modulo_counterexample : ¬ C03_fixpnt_from_ieee_modulo_full := by
-  intro h
-  exact C03_fixpnt_from_ieee_wide_negative_counterexample
-    (h 72 4 11 52 0xbff0000000000000 (by decide) (by decide) (by decide) (by decide) (by decide))
-
-/-- EVERY finite source — zeros, subnormals, normals — for nbits ≤ 64 and a format whose bias is at least rbits + 2
-    (2^(ew−1) ≥ rbits + 3: float for rbits ≤ 125, double for every rbits ≤ 64).  Zero and subnormal sources take the
+/-- EVERY finite source — zeros, subnormals, normals — for EVERY nbits and a format whose bias is at least rbits + 2
+    (2^(ew−1) ≥ rbits + 3: float for rbits ≤ 125, double for every rbits ≤ 1021).  Zero and subnormal sources take the
     `rawExponent == 0` path (no hidden bit, exponent −bias — off by one binade for subnormals) and land in the
-    "shift out everything" branch; their exact value scaled by 2^rbits is below 1/2, so 0 is the correct rounding. -/
-theorem C03_fixpnt_from_ieee_modulo_finite (n r ew fb bits : Nat) (hn : n ≤ 64) (_hr : r ≤ n) (hfb : fb + 1 < 64)
+    "shift out everything" branch; their exact value scaled by 2^rbits is below 1/2, so 0 is the correct rounding.
+    This is the full C03 statement for fixpnt in Modulo arithmetic. -/
+theorem C03_fixpnt_from_ieee_modulo_finite (n r ew fb bits : Nat) (_hr : r ≤ n) (hfb : fb + 1 < 64)
     (hbias : r + 3 ≤ 2 ^ (ew - 1)) (_hfinite : (bits >>> fb) % 2 ^ ew < 2 ^ ew - 1) :
     ConvFixpnt.fromIeee n r false ew fb bits = ConvFixpntSpec.fromRat n r false (SpecF64.valOf (fb + 1) ew bits) :=
-  fromIeee_modulo_finite n r ew fb bits hn hfb hbias
+  fromIeee_modulo_finite n r ew fb bits hfb hbias
 
 -- the largest double subnormal 0x000fffffffffffff into fixpnt<64,64>: 0
 example : ConvFixpnt.fromIeee 64 64 false 11 52 0x000fffffffffffff = 0 := by decide +kernel
 example : (64 ≤ 64) ∧ (52 + 1 < 64) ∧ (64 + 3 ≤ 2 ^ (11 - 1)) ∧ ((0x000fffffffffffff >>> 52) % 2 ^ 11 < 2 ^ 11 - 1) := by decide
 
-/-- without the bias guard the subnormal path is wrong: a toy format with 2 exponent bits (bias 1), 3 fraction bits:
-    the subnormal 0b0_00_100 = 0.5 converts to fixpnt<8,4> as 0x04 (0.25) instead of 0x08 -/
+/-- without the bias guard the subnormal path is wrong (not reachable with float / double, whose bias is 127 / 1023): a toy
+    format with 2 exponent bits (bias 1), 3 fraction bits: the subnormal 0b0_00_100 = 0.5 converts to fixpnt<8,4> as 0x04
+    (0.25) instead of 0x08 -/
 theorem C03_fixpnt_from_ieee_subnormal_counterexample :
     ConvFixpnt.fromIeee 8 4 false 2 3 0b000100 = 0x04 ∧
     ConvFixpntSpec.fromRat 8 4 false (SpecF64.valOf 4 2 0b000100) = 0x08 := by decide +kernel
 
 /-! float / double sources, Saturate -/
 
-/-- full statement, Saturate, nbits ≤ 64 (false of the pinned code for nbits > 25) -/
-def C03_fixpnt_from_ieee_saturate_full : Prop :=
-  ∀ (n r ew fb bits : Nat), 0 < n → n ≤ 64 → r ≤ n → 2 ≤ ew → fb + 1 < 64 →
-    0 < (bits >>> fb) % 2 ^ ew → (bits >>> fb) % 2 ^ ew < 2 ^ ew - 1 →
-    ConvFixpnt.fromIeee n r true ew fb bits = ConvFixpntSpec.fromRat n r true (SpecF64.valOf (fb + 1) ew bits)
-
-/-- Saturate, nbits ≤ 25: a normal finite float / double converts to the nearest multiple of 2^−rbits (ties to even)
-    clamped to [maxneg, maxpos].  The range test compares the source with `float(maxpos)` and `float(maxneg)`
-    (`to_native<float>`, an accumulation loop in SINGLE precision): for nbits − 1 ≤ 24 every partial sum is a
-    binary32 number and both thresholds are exact.  Missing for the full statement: for nbits ≥ 26 `float(maxpos)`
-    rounds up to 2^(nbits−1−rbits) and sources between maxpos and that power of two fall through to the wrapping tail. -/
-theorem C03_fixpnt_from_ieee_saturate_partial (n r ew fb bits : Nat) (hn : 0 < n) (hn25 : n ≤ 25) (hr : r ≤ n)
+/-- Saturate: a normal finite float / double converts to the nearest multiple of 2^−rbits (ties to even) clamped to
+    [maxneg, maxpos], for EVERY nbits within the single-precision range of the thresholds (nbits − rbits ≤ 128, rbits ≤ 149; every
+    configuration of the harness and of the library's tests).  The range test compares the source with `float(maxpos)` and
+    `float(maxneg)` (`to_native<float>`, an accumulation loop in SINGLE precision): float(maxneg) is the exact power of two;
+    float(maxpos) is exact for nbits ≤ 25 and rounds UP to 2^(nbits−1−rbits) above (`toNative_maxpos_wide`).  A source at or
+    above float(maxpos) clamps; a source below it rounds to at most 2^(nbits−1), and a positive result that carried into the
+    sign bit is replaced by maxpos (`if (!s && f.sign()) f.maxpos();`). -/
+theorem C03_fixpnt_from_ieee_saturate (n r ew fb bits : Nat) (hn : 0 < n) (hr : r ≤ n) (hr149 : r ≤ 149) (hnr : n - r ≤ 128)
     (hew : 2 ≤ ew) (hfb : fb + 1 < 64)
     (hnormal : 0 < (bits >>> fb) % 2 ^ ew) (hfinite : (bits >>> fb) % 2 ^ ew < 2 ^ ew - 1) :
     ConvFixpnt.fromIeee n r true ew fb bits = ConvFixpntSpec.fromRat n r true (SpecF64.valOf (fb + 1) ew bits) :=
-  fromIeee_saturate n r ew fb bits hn hn25 hr hew hfb hnormal hfinite
+  fromIeee_saturate n r ew fb bits hn hr hr149 hnr hew hfb hnormal hfinite
 
 -- fixpnt<16,8,Saturate>: double 300.0 clamps to maxpos, double −3.5 is exact, float −1e6 (0xc9742400) clamps to maxneg
 example : ConvFixpnt.fromIeee 16 8 true 11 52 0x4072c00000000000 = 0x7fff := by decide +kernel
 example : ConvFixpnt.fromIeee 16 8 true 11 52 0xc00c000000000000 = 0xfc80 := by decide +kernel
 example : ConvFixpnt.fromIeee 16 8 true 8 23 0xc9742400 = 0x8000 := by decide +kernel
-example : (0 < 16) ∧ (16 ≤ 25) ∧ (8 ≤ 16) ∧ (2 ≤ 11) ∧ (52 + 1 < 64) ∧ (0 < (0x4072c00000000000 >>> 52) % 2 ^ 11) ∧
+example : (0 < 16) ∧ (8 ≤ 16) ∧ (8 ≤ 149) ∧ (16 - 8 ≤ 128) ∧ (2 ≤ 11) ∧ (52 + 1 < 64) ∧ (0 < (0x4072c00000000000 >>> 52) % 2 ^ 11) ∧
     ((0x4072c00000000000 >>> 52) % 2 ^ 11 < 2 ^ 11 - 1) := by decide
 
-/-- fixpnt<26,20,Saturate> from the double just below 32.0: float(maxpos) = float(32 − 2^−20) rounds up to 32.0f,
-    the source is below it, passes the range test and wraps to maxneg 0x2000000 (−32.0); the property demands maxpos -/
-theorem C03_fixpnt_from_ieee_saturate_wrap_counterexample :
-    ConvFixpnt.fromIeee 26 20 true 11 52 0x403fffffffffffff = 0x2000000 ∧
+/-- the witness of the former defect `fixpnt.from_ieee.saturate.float_threshold`: fixpnt<26,20,Saturate> from the double just
+    below 32.0: float(maxpos) = 32.0f, the source is below it, rounds up to raw 2^25 and is now clamped to maxpos 0x1ffffff -/
+theorem C03_fixpnt_from_ieee_saturate_wrap_witness :
+    ConvFixpnt.fromIeee 26 20 true 11 52 0x403fffffffffffff = 0x1ffffff ∧
     ConvFixpntSpec.fromRat 26 20 true (SpecF64.valOf 53 11 0x403fffffffffffff) = 0x1ffffff := by decide +kernel
-
-theorem C03_fixpnt_from_ieee_saturate_counterexample : ¬ C03_fixpnt_from_ieee_saturate_full := by
-  intro h
-  have h1 := h 26 20 11 52 0x403fffffffffffff (by decide) (by decide) (by decide) (by decide) (by decide) (by decide) (by decide)
-  rw [C03_fixpnt_from_ieee_saturate_wrap_counterexample.1, C03_fixpnt_from_ieee_saturate_wrap_counterexample.2] at h1
-  exact absurd h1 (by decide)
